@@ -168,6 +168,24 @@ type frame struct {
 	lastPC            uint64
 	pending           *obs         // state before the call/create instruction at lastPC
 	pendingBump       *common.Hash // root if only the creator's nonce had been bumped (CREATE)
+	isData            []bool       // per code offset of this frame's code: inside the immediate data of a PUSH
+}
+
+// pushData marks the immediate-data bytes of the code by walking it instruction by instruction (the
+// definition of a valid jump destination / instruction boundary in the specification; independent of
+// the interpreter's jump-destination analysis and its cache).
+func pushData(code []byte) []bool {
+	d := make([]bool, len(code))
+	for pc := 0; pc < len(code); pc++ {
+		if op := code[pc]; op >= 0x60 && op <= 0x7f {
+			n := int(op) - 0x5f
+			for k := 1; k <= n && pc+k < len(code); k++ {
+				d[pc+k] = true
+			}
+			pc += n
+		}
+	}
+	return d
 }
 
 type tracer struct {
@@ -234,11 +252,18 @@ func (t *tracer) CaptureState(env *vm.EVM, pc uint64, op vm.OpCode, gas, cost ui
 		return nil
 	}
 	if depth == len(t.frames)+1 {
-		t.frames = append(t.frames, frame{entryGas: gas})
+		t.frames = append(t.frames, frame{entryGas: gas, isData: pushData(contract.Code)})
 	} else {
 		t.frames = t.frames[:depth]
 	}
 	f := &t.frames[depth-1]
+	// control flow stays on the instruction boundaries of the frame's own code, and a jump lands on a JUMPDEST
+	if int(pc) < len(f.isData) && f.isData[pc] {
+		t.fail("control-flow", op, "execution at pc=%d depth=%d, which is immediate data of a PUSH in this frame's code (%d bytes)", pc, depth, len(contract.Code))
+	}
+	if f.hasLast && pc != f.lastPC+1 && (f.lastOp == vm.JUMP || f.lastOp == vm.JUMPI) && op != vm.JUMPDEST {
+		t.fail("control-flow", op, "%s at pc=%d depth=%d continued at pc=%d, which holds %s, not JUMPDEST", f.lastOp, f.lastPC, depth, pc, op)
+	}
 	if f.hasLast {
 		if isCallOp(f.lastOp) {
 			min := minCallCharge(f.lastOp)
